@@ -53,6 +53,9 @@ def run_once(wn, scn, rec, wall_cap=60, sim_holder=None):
     if backup is not None:
         kw['backup_solver'] = NewtonSolver
         kw['backup_solver_options'] = dict(backup.get('options') or {})
+        if backup.get('solver') == 'fsolve':
+            import scipy.optimize
+            kw['backup_solver'] = scipy.optimize.fsolve
     rec.wn = wn
     res = None
     exc = None
